@@ -17,4 +17,4 @@ llvm-profdata merge -sparse $W/*.profraw -o $W/all.profdata
 OBJ=""; for e in crash fault conc corrupt codec; do OBJ="$OBJ -object build/cov/bin/$e"; done
 llvm-cov report build/cov/bin/hist $OBJ -instr-profile=$W/all.profdata 2>/dev/null | grep -E "repo/src|^TOTAL|^Filename"
 if [ -n "${COV_SHOW:-}" ]; then llvm-cov show build/cov/bin/hist $OBJ -instr-profile=$W/all.profdata ${VERIF_REPO:-/repo}/src/$COV_SHOW 2>/dev/null | awk -F'|' '$2 ~ /^ *0$/ {print $1 "|" $3}'; fi
-rm -rf $W
+if [ -n "${COV_KEEP:-}" ]; then echo "kept: $W"; else rm -rf $W; fi
